@@ -56,17 +56,17 @@ theorem C13_reencode (d : MsgDef) (m : Msg) (hd : wfDef d = true) : encMsg d (ca
   obtain ⟨nh, nb, nt, _, _, _⟩ := wfDef_parts hd
   simp only [encMsg, encSeg, canonMsg, encSegFields_canon _ nh, encSegFields_canon _ nb, encSegFields_canon _ nt]
 
-/-- **Equality (partial).**  Full statement wanted: `pyEq (canonMsg d m) m = true` for every well-formed `m`
-    (the decoded message compares `==` to the original).  That is false of the code as it is: see
-    `Witness.C13.C13_witness_eq_order` — `OrderedDict.__eq__` is order sensitive.
-    Proved here under the extra hypothesis that every group instance was assigned in dictionary order, stated as
-    "canonicalising changes nothing" (`canonMsg d m = m`). -/
+/-- **Equality under the attrs-generated `Group.__eq__` (the code before /repo 02aab28), partial.**  `pyEq` compares group
+    instances as OrderedDicts (order sensitive); with it the decoded message equals the original only when every group
+    instance was assigned in dictionary order ("canonicalising changes nothing"); `Witness.C13.C13_witness_eq_order` is the
+    counterexample otherwise.  Kept as the regression statement for the defect that was repaired. -/
 theorem C13_eq_original_partial (d : MsgDef) (m : Msg) (hord : canonMsg d m = m) : pyEq (canonMsg d m) m = true := by
   rw [hord]; exact pyEq_refl m
 
-/-- **Equality after the repair.**  With group instances compared as plain dicts (fixes/C13-group-eq-order.md) the
-    decoded message compares equal to the original for *every* well-formed message, whatever the assignment order. -/
-theorem C13_eq_repaired (d : MsgDef) (m : Msg) (hd : wfDef d = true) (hm : wfMsg d m = true) :
+/-- **Equality — the statement of the property.**  `pyEqDict` is `Message.__eq__` of the code as it is now (`Group.__eq__`
+    compares the fields of an instance as plain dicts, top-level segments as OrderedDicts): the decoded message compares
+    equal to the original for *every* well-formed message, whatever the order in which group fields were assigned. -/
+theorem C13_eq_original (d : MsgDef) (m : Msg) (hd : wfDef d = true) (hm : wfMsg d m = true) :
     pyEqDict (canonMsg d m) m = true := by
   obtain ⟨nh, nb, nt, _, _, _⟩ := wfDef_parts hd
   simp only [wfMsg, wfSeg, Bool.and_eq_true] at hm
@@ -200,15 +200,16 @@ theorem C13_encodes (d : MsgDef) (m : Msg) (hd : wfDef d = true) (hm : wfMsg d m
 
 /-- **The statement of C13 in one piece** (for a message whose first assigned header field is MsgType): it encodes;
     the bytes decode to the registered class, every byte consumed, to the canonical form of the message; that form
-    re-encodes to the same bytes. -/
+    re-encodes to the same bytes and compares `==` to the original. -/
 theorem C13_statement (reg : List MsgDef) (d : MsgDef) (m : Msg) (hd : wfDef d = true) (hm : wfMsg d m = true)
     (r : Bool) (rest : Seg) (hfirst : m.hdr = (35, .str d.type) :: rest)
     (hentry : lookupE d.hdr 35 = some (.field 35 .string r)) (hreg : lookupReg reg d.type = some d) :
     ∃ bs, encMsg d m = .ok bs ∧ decodeMsg reg bs = .ok (bs.length, d, canonMsg d m) ∧
-      encMsg d (canonMsg d m) = .ok bs := by
+      encMsg d (canonMsg d m) = .ok bs ∧ pyEqDict (canonMsg d m) m = true := by
   obtain ⟨bs, henc⟩ := C13_encodes d m hd hm
   have hty := C13_msgtype_first d m bs hd hm henc r rest hfirst hentry
-  exact ⟨bs, henc, C13_roundtrip reg d m bs hd hm henc hty hreg, by rw [C13_reencode d m hd]; exact henc⟩
+  exact ⟨bs, henc, C13_roundtrip reg d m bs hd hm henc hty hreg, by rw [C13_reencode d m hd]; exact henc,
+    C13_eq_original d m hd hm⟩
 
 /-! ### non-vacuity: a dictionary with a group inside a group, a message assigned out of dictionary order -/
 
